@@ -101,6 +101,58 @@ fn parse_opt_hex(s: &str) -> Option<Option<u128>> {
 // ---------------------------------------------------------------------------------------
 // fast / lazy / perfect
 
+thread_local! {
+    /// decoder evaluations ("quantile_function returned an in-support symbol whose bin contains
+    /// the quantile, without panicking") accumulated for property C10
+    static C10_EVALS: std::cell::Cell<u64> = std::cell::Cell::new(0);
+}
+fn c10_add(n: u64) {
+    C10_EVALS.with(|c| c.set(c.get() + n));
+}
+fn c10_drain(rep: &mut Report) {
+    let n = C10_EVALS.with(|c| c.replace(0));
+    if n > 0 {
+        *rep.evals.entry("C10".into()).or_insert(0) += n;
+    }
+}
+
+/// the `lookup_table` of a lookup decoder model, read through its derived `Debug` — a *safe*
+/// view (the field is private and `quantile_function` indexes it unchecked)
+fn debug_lookup_table<T: Debug>(m: &T) -> Option<Vec<u128>> {
+    let s = format!("{:?}", m);
+    let i = s.find("lookup_table: [")? + "lookup_table: [".len();
+    let j = i + s[i..].find(']')?;
+    let body = s[i..j].trim();
+    if body.is_empty() {
+        return Some(vec![]);
+    }
+    body.split(',').map(|t| t.trim().parse::<u128>().ok()).collect()
+}
+
+/// validates a lookup decoder model through safe views only, BEFORE `quantile_function` (whose
+/// unchecked indexing would abort the process on a broken table): the table has `2^P` entries
+/// and entry `q` is the index of the bin of the symbol table that contains `q`
+fn lookup_table_check<T: Debug>(m: &T, p: u32, table: &[Triple]) -> Result<(), String> {
+    let lt = debug_lookup_table(m).ok_or_else(|| "the lookup table is not visible in the Debug output".to_string())?;
+    let total = pow2(p) as usize;
+    if lt.len() != total {
+        return Err(format!("its lookup table has {} entries instead of 2^{} = {} (quantile_function would index it out of bounds)", lt.len(), p, total));
+    }
+    if !table_valid(p, table) {
+        return Err(format!("its symbol table is not a tiling of [0, 2^P): {}", show_triples(&table[..table.len().min(8)])));
+    }
+    let mut bin = 0usize;
+    for (q, &e) in lt.iter().enumerate() {
+        while bin + 1 < table.len() && (q as u128) >= table[bin].1 + table[bin].2 {
+            bin += 1;
+        }
+        if e as usize != bin {
+            return Err(format!("its lookup table maps quantile {:x} to bin {} but the symbol table puts it into bin {}", q, e, bin));
+        }
+    }
+    Ok(())
+}
+
 /// decoder ops appended to a `quant.fast` line: `dec q`, `sweep lo hi stride` (quantiles `< 2^P`)
 fn dec_ops(p: u32, head: String, ops: &[Option<LazyOp>], dec: Option<&dyn Fn(u128) -> Triple>) -> String {
     let mut outs = vec![head];
@@ -218,7 +270,11 @@ where
                 Err(()) => "rejected".into(),
                 Ok(m) => {
                     let table: Vec<Triple> = m.symbol_table().map(tr).collect();
-                    // the decoder reads the lookup *table*, which `symbol_table()` does not show
+                    // the decoder reads the lookup *table*, which `symbol_table()` does not show;
+                    // a broken table must give an answer (a mismatch), not an out-of-bounds abort
+                    if let Err(what) = lookup_table_check(&m, P as u32, &table) {
+                        return format!("{} | invalid-lookup-model: {}", fast_head(P as u32, &table), what);
+                    }
                     let dec = |q: u128| tr(m.quantile_function(from_u128(q)));
                     dec_ops(P as u32, fast_head(P as u32, &table), ops, Some(&dec))
                 }
@@ -229,6 +285,9 @@ where
                 Err(()) => "rejected".into(),
                 Ok(m) => {
                     let table: Vec<Triple> = m.symbol_table().map(tr).collect();
+                    if let Err(what) = lookup_table_check(&m, P as u32, &table) {
+                        return format!("{} | invalid-lookup-model: {}", fast_head(P as u32, &table), what);
+                    }
                     let dec = |q: u128| tr(m.quantile_function(from_u128(q)));
                     dec_ops(P as u32, fast_head(P as u32, &table), ops, Some(&dec))
                 }
@@ -1855,6 +1914,7 @@ fn views_check(
     if let Some(d) = dec {
         for q in quantiles_for(rng, p, &t, 400) {
             evals += 1;
+            c10_add(1);
             let got = d(q);
             if Some(got) != table_find(&t, q) {
                 return Err(format!(
@@ -1886,9 +1946,14 @@ fn report_ctor(
 ) -> Option<Outcome> {
     rep.eval("C19");
     rep.eval("C20");
+    c10_drain(rep);
+    let has_decoder = !ctor.starts_with("ncenc");
     match r {
         Err(class) => {
             rep.fail("C19", format!("{} => constructor or accepted model of `{}` panicked ({})", line, ctor, class));
+            if has_decoder {
+                rep.fail("C10", format!("{} => constructor or decoder of `{}` panicked ({})", line, ctor, class));
+            }
             None
         }
         Ok(Ok(None)) => {
@@ -1907,6 +1972,10 @@ fn report_ctor(
             rep.count(&format!("ctor.{}.accepted", ctor));
             rep.fail("C19", format!("{} => accepted by `{}` but {}", line, ctor, what));
             rep.fail("C03", format!("{} => `{}`: {}", line, ctor, what));
+            if has_decoder && (what.contains("decoder") || what.contains("lookup table") || what.contains("quantile")) {
+                rep.fail("C10", format!("{} => accepted by `{}` but {}", line, ctor, what));
+                rep.fail("C20", format!("{} => accepted by `{}` but {}", line, ctor, what));
+            }
             None
         }
     }
@@ -2079,41 +2148,67 @@ where
     let mut v = gen_weights(rng, n, is32);
     corrupt(rng, &mut v);
     let tbl = to_bits_list(&v, is32);
-    let replay = format!("quant.fast lkc {} {:x} {:x} - {}", F::NAME, Pr::BITS, P, show_list(tbl.clone()));
+    let cell = if P == Pr::BITS { "P==BITS" } else { "P<BITS" };
+    let line = |ctor: &str| format!("quant.fast {} {} {:x} {:x} - {}", ctor, F::NAME, Pr::BITS, P, show_list(tbl.clone()));
     let probs: Vec<F> = tbl.iter().map(|&b| F::from_bits_u(b)).collect();
-    let res = guarded(|| -> Result<(), String> {
+    let p = P as u32;
+    let tr = |x: (usize, Pr, Pr::NonZero)| -> Triple { (x.0 as u128, to_u128(x.1), to_u128(x.2.get())) };
+    // Err = (constructor kind of the failing line, what)
+    let res = guarded(|| -> Result<u64, (&'static str, String)> {
         let eager = ContiguousCategoricalEntropyModel::<Pr, Vec<Pr>, P>::from_floating_point_probabilities_fast(&probs, None);
         let lkc = ContiguousLookupDecoderModel::<Pr, Vec<Pr>, Box<[Pr]>, P>::from_floating_point_probabilities_fast(&probs, None);
         let lknc = NonContiguousLookupDecoderModel::<usize, Pr, Vec<(Pr, usize)>, Box<[Pr]>, P>::from_symbols_and_floating_point_probabilities_fast(0..n, &probs, None);
         let (eager, lkc, lknc) = match (eager, lkc, lknc) {
-            (Err(()), Err(()), Err(())) => return Ok(()),
+            (Err(()), Err(()), Err(())) => return Ok(0),
             (Ok(a), Ok(b), Ok(c)) => (a, b, c),
-            _ => return Err("constructors disagree on acceptance".into()),
+            _ => return Err(("lkc", "constructors disagree on acceptance".into())),
         };
-        let table: Vec<Triple> = eager.symbol_table().map(|(s, c, p)| (s as u128, to_u128(c), to_u128(p.get()))).collect();
-        let t2: Vec<Triple> = lkc.symbol_table().map(|(s, c, p)| (s as u128, to_u128(c), to_u128(p.get()))).collect();
-        let t3: Vec<Triple> = lknc.symbol_table().map(|(s, c, p)| (s as u128, to_u128(c), to_u128(p.get()))).collect();
-        if t2 != table || t3 != table {
-            return Err("lookup symbol tables differ".into());
+        let table: Vec<Triple> = eager.symbol_table().map(tr).collect();
+        let t2: Vec<Triple> = lkc.symbol_table().map(tr).collect();
+        let t3: Vec<Triple> = lknc.symbol_table().map(tr).collect();
+        if t2 != table {
+            return Err(("lkc", "accepted but its symbol table differs from the contiguous model's".into()));
         }
+        if t3 != table {
+            return Err(("lknc", "accepted but its symbol table differs from the contiguous model's".into()));
+        }
+        // safe views first: a broken lookup table would make `quantile_function` index out of bounds
+        lookup_table_check(&lkc, p, &table).map_err(|w| ("lkc", format!("accepted but {}", w)))?;
+        lookup_table_check(&lknc, p, &table).map_err(|w| ("lknc", format!("accepted but {}", w)))?;
         let conv = eager.to_lookup_decoder_model();
-        for q in 0..pow2(P as u32) {
+        lookup_table_check(&conv, p, &table).map_err(|w| ("cont", format!("to_lookup_decoder_model(): {}", w)))?;
+        let mut evals = 0u64;
+        for q in 0..pow2(p) {
             let want = table_find(&table, q);
             let qq: Pr = from_u128(q);
-            for (name, (s, c, p)) in [("lkc", lkc.quantile_function(qq)), ("lknc", lknc.quantile_function(qq)), ("to_lookup", conv.quantile_function(qq))] {
-                if Some((s as u128, to_u128(c), to_u128(p.get()))) != want {
-                    return Err(format!("{} dec({:x}) differs", name, q));
+            for (name, got) in [("lkc", tr(lkc.quantile_function(qq))), ("lknc", tr(lknc.quantile_function(qq))), ("cont", tr(conv.quantile_function(qq)))] {
+                evals += 1;
+                if Some(got) != want {
+                    return Err((name, format!("accepted but decoder and encoder disagree: quantile_function({:x}) = {:x}:{:x}:{:x}, the symbol table has {:?}", q, got.0, got.1, got.2, want)));
                 }
             }
         }
-        Ok(())
+        Ok(evals)
     });
     rep.eval("C05");
     rep.eval("C20");
+    rep.count(&format!("any.lookup.lkc.random.{}", cell));
+    rep.count(&format!("any.lookup.lknc.random.{}", cell));
     match res {
-        Ok(Ok(())) => {}
-        Ok(Err(what)) => rep.fail("C05", format!("{} # {}", replay, what)),
-        Err(class) => rep.fail("C19", format!("{} # {}", replay, class)),
+        Ok(Ok(evals)) => {
+            *rep.evals.entry("C10".into()).or_insert(0) += evals;
+            *rep.evals.entry("C03".into()).or_insert(0) += evals;
+        }
+        Ok(Err((ctor, what))) => {
+            for prop in ["C05", "C03", "C10", "C19", "C20"] {
+                rep.fail(prop, format!("{} => {}", line(ctor), what));
+            }
+        }
+        Err(class) => {
+            for prop in ["C19", "C10", "C20"] {
+                rep.fail(prop, format!("{} => constructor or decoder panicked ({})", line("lkc"), class));
+            }
+        }
     }
 }
 
@@ -2159,7 +2254,10 @@ where
 {
     let is32 = F::NAME == "f32";
     let p = P as u32;
+    let cell = if P == Pr::BITS { "P==BITS" } else { "P<BITS" };
     for k in 0..N_DIRECTED {
+        rep.count(&format!("any.lookup.lkc.directed.{}", cell));
+        rep.count(&format!("any.lookup.lknc.directed.{}", cell));
         let (v, norm, class, must) = directed_case(rng, k, is32);
         let tbl = to_bits_list(&v, is32);
         let tok = norm_token(norm, is32);
@@ -2175,6 +2273,7 @@ where
                 Err(()) => Ok(None),
                 Ok(m) => {
                     let table: Vec<Triple> = m.symbol_table().map(tr).collect();
+                    lookup_table_check(&m, p, &table)?;
                     let dec = |q: u128| tr(m.quantile_function(from_u128(q)));
                     Ok(Some(views_check(p, n, None, Some(table), Some(&dec), &mut r1)?))
                 }
@@ -2186,6 +2285,7 @@ where
                 Err(()) => Ok(None),
                 Ok(m) => {
                     let table: Vec<Triple> = m.symbol_table().map(tr).collect();
+                    lookup_table_check(&m, p, &table)?;
                     let dec = |q: u128| tr(m.quantile_function(from_u128(q)));
                     Ok(Some(views_check(p, n, None, Some(table), Some(&dec), &mut r2)?))
                 }
@@ -2202,6 +2302,7 @@ where
                     Err(()) => Ok(None),
                     Ok(m) => {
                         let table: Vec<Triple> = m.symbol_table().map(tr).collect();
+                        lookup_table_check(&m, p, &table)?;
                         let dec = |q: u128| tr(m.quantile_function(from_u128(q)));
                         Ok(Some(views_check(p, n, None, Some(table), Some(&dec), &mut r3)?))
                     }
@@ -2213,6 +2314,7 @@ where
                     Err(()) => Ok(None),
                     Ok(m) => {
                         let table: Vec<Triple> = m.symbol_table().map(tr).collect();
+                        lookup_table_check(&m, p, &table)?;
                         let dec = |q: u128| tr(m.quantile_function(from_u128(q)));
                         Ok(Some(views_check(p, n, None, Some(table), Some(&dec), &mut r4)?))
                     }
@@ -2306,6 +2408,9 @@ where
     let size = (spec.max - spec.min) as u128 + 1;
     rep.count(&format!("leaky.{}.B{}.P{}", spec.sym, Pr::BITS, P));
     rep.count(&format!("leaky.dist.{}", spec.base.tokens().split(' ').next().unwrap()));
+    if spec.min == tlo || spec.max == thi {
+        rep.count(if spec.min == tlo && spec.max == thi { "any.leaky.support.whole-type" } else { "any.leaky.support.touches-type-end" });
+    }
 
     let quantizer = match guarded(|| LeakyQuantizer::<f64, S, Pr, P>::new(to_s(spec.min)..=to_s(spec.max))) {
         Ok(q) => q,
@@ -2471,7 +2576,10 @@ where
     });
     rep.eval("C20");
     match res {
-        Err(class) => rep.fail("C20", format!("{} # {}", replay, class)),
+        Err(class) => {
+            rep.fail("C20", format!("{} # {}", replay, class));
+            rep.fail("C10", format!("{} # encoder or decoder panicked ({})", replay, class));
+        }
         Ok(fails) => {
             for (prop, what) in fails {
                 if prop == "evals" {
@@ -2480,8 +2588,14 @@ where
                         rep.eval("C09");
                     }
                     *rep.evals.entry("C03".into()).or_insert(0) += v[0] + v[1];
+                    // v[1] = quantile_function evaluations (every hint × quantile): in-support
+                    // symbol whose bin contains the quantile, no panic
+                    *rep.evals.entry("C10".into()).or_insert(0) += v[1];
                     *rep.evals.entry("C05".into()).or_insert(0) += v[2];
                 } else {
+                    if what.contains("dec(") {
+                        rep.fail("C10", format!("{} # {}", replay, what));
+                    }
                     rep.fail(prop, format!("{} # {}", replay, what));
                 }
             }
